@@ -303,8 +303,12 @@ class Check:
         bads = []
         for path, res in results:
             if "TRACE-DONE" not in res["out"]:
-                log(res["out"][-5000:])
-                raise InfraError("trace validation of %s did not complete (rc=%s)" % (path, res["rc"]))
+                if not parse_bad(res["out"]):
+                    log(res["out"][-5000:])
+                    raise InfraError("trace validation of %s did not complete (rc=%s)" % (path, res["rc"]))
+                # the specification rejected events and then could not continue (e.g. a logged value outside the
+                # domain the model reached): the rejections stand, the remainder of this trace is unexamined
+                self.notes.append("trace %s: validation stopped after a rejected event" % os.path.basename(path))
             self.states += res["distinct"]
             self.transitions += res["generated"]
             nd = res["out"].count('"DRIFT ')
